@@ -67,6 +67,8 @@ class Opts:
     enum_params: bool = True
     typed_headers: bool = False     # header parameters of non-string type (F39)
     name_clash: bool = False        # property names that class-case to a schema name / parent prefix (F36, F37)
+    component_params: bool = False  # components.parameters shared through $ref by several operations (arrays of inline enums, inline objects)
+    multi_2xx: bool = False         # several of 200/201/202/204 with different bodies, listed in any order
 
 
 def _prim(r: random.Random, o: Opts, allow_enum=True) -> dict:
@@ -333,9 +335,28 @@ def gen_operation(r: random.Random, o: Opts, schemas: dict, path_vars: list[str]
         if r.random() < 0.3:
             p["required"] = True
         params.append(p)
+    if o.component_params:
+        # the parameters whose schema is promoted to a model (inline enum array, inline object) are the interesting ones: each
+        # operation takes each of them with probability 1/2, so that most documents share one between several operations
+        for cname in [c for c in sorted(COMPONENT_PARAMS) if r.random() < (0.5 if c in ("StateFilter", "Window", "Mode") else 0.25)]:
+            cp = COMPONENT_PARAMS[cname]
+            san = re.sub(r"[^a-z0-9]+", "_", re.sub(r"([a-z0-9])([A-Z])", r"\1_\2", cp["name"]).lower()).strip("_")
+            if san in used:
+                continue
+            used.add(san)
+            params.append({"$ref": f"#/components/parameters/{cname}"})
     if params:
         op["parameters"] = params
     return op
+
+
+COMPONENT_PARAMS = {
+    "StateFilter": {"name": "state", "in": "query", "schema": {"type": "array", "items": {"type": "string", "enum": ["open", "paid", "void"]}}},
+    "PageSize": {"name": "pageSize", "in": "query", "schema": {"type": "integer"}},
+    "Window": {"name": "window", "in": "query", "schema": {"type": "object", "properties": {"from": {"type": "string"}, "to": {"type": "string"}}}},
+    "Mode": {"name": "mode", "in": "query", "required": True, "schema": {"type": "string", "enum": ["fast", "slow"]}},
+    "Trace": {"name": "X-Trace-Level", "in": "header", "schema": {"type": "string"}},
+}
 
 
 STREAM_TYPES = ("application/octet-stream", "text/event-stream", "application/x-ndjson")
@@ -361,7 +382,7 @@ def gen_responses(r: random.Random, o: Opts, schemas: dict) -> dict:
         stream_op = True
         resp["200"] = {"description": "stream", "content": {r.choice(["text/event-stream", "application/x-ndjson"] if o.ndjson else ["text/event-stream"]): {"schema": gen_body_schema(r, o, schemas)}}}
     if not stream_op or not o.mainstream:
-        n2 = r.choice([1, 1, 1, 2])
+        n2 = r.choice([1, 1, 1, 2]) if not o.multi_2xx else r.choice([2, 2, 3])
         k2x = r.random()
         codes2 = r.sample(["200", "201", "202", "204"], n2) if k2x < 0.85 else (["206"] if k2x < 0.9 else r.sample(["203", "204", "206", "207", "226"], 2))
         for c in codes2:
@@ -438,6 +459,8 @@ def gen_spec(r: random.Random, o: Opts | None = None) -> dict:
         idx += 1
     doc = {"openapi": "3.0.3", "info": {"title": r.choice(["Test API", "Shop", "My Service"]), "version": "1.0.0"},
            "paths": paths, "components": {"schemas": schemas}}
+    if o.component_params:
+        doc["components"]["parameters"] = copy.deepcopy(COMPONENT_PARAMS)
     return doc
 
 
